@@ -316,7 +316,11 @@ Inductive op :=
 | ORun (full : bool) (b : nat) (fail : option nat) (core : Z)
 (* a full sync DURING which, right after its [k]-th successful sink call, another writer appends [vs] to dataset
    [ds] (not the main dataset) *)
-| ORunMid (b : nat) (fail : option nat) (core : Z) (k : nat) (ds : nat) (vs : list wver).
+| ORunMid (b : nat) (fail : option nat) (core : Z) (k : nat) (ds : nat) (vs : list wver)
+(* an incremental run DURING which, right after its [k]-th successful sink call (i.e. from inside the pipeline's
+   batch callback), another writer appends [vs] to dataset [ds]; modelled for dependencies on pairwise distinct
+   datasets and [ds] not the main dataset; a full sync when the job has no token yet *)
+| ORunMidInc (b : nat) (fail : option nat) (core : Z) (k : nat) (ds : nat) (vs : list wver).
 
 (** [e] placed right after the [k]-th call that invoked the sink; false when there is no such call *)
 Fixpoint insert_mid (evs : list ev) (k : nat) (e : ev) : list ev * bool :=
@@ -329,6 +333,66 @@ Fixpoint insert_mid (evs : list ev) (k : nat) (e : ev) : list ev * bool :=
     end
   | a :: r => let '(r', i) := insert_mid r k e in (a :: r', i)
   end.
+
+(** *** an incremental run with a write from inside the batch callback *)
+(** the calls of one step as events; [e] (the write) goes right after the call that is the [k]-th sink invocation
+    of the run ([n] = invocations so far); returns the events, the new count, "the write happened in this step" *)
+Fixpoint emit_calls (cs : list call) (n k : nat) (e : ev) : list ev * nat * bool :=
+  match cs with
+  | [] => ([], n, false)
+  | c :: cs' =>
+    let ec := EvCall (k_ents c) (Some (k_tok c)) in
+    match k_ents c with
+    | [] => let '(r, n', w) := emit_calls cs' n k e in (ec :: r, n', w)
+    | _ => if Nat.eqb n k
+           then let '(r, n', _) := emit_calls cs' (S n) k e in (ec :: e :: r, n', true)
+           else let '(r, n', w) := emit_calls cs' (S n) k e in (ec :: r, n', w)
+    end
+  end.
+
+(** the dependencies in turn: each one reads its changes and takes its query instant when its turn comes, so a
+    dependency that is processed after the write sees it ([h1]); the results of the dependency during whose batch
+    callback the write lands were computed before it ([h0]) *)
+Fixpoint deps_steps_mid (v : variant) (c : cfg) (h0 h1 : hub) (tk0 : tokens) (b : nat) (d : tokens) (dps : list dep)
+         (n k : nat) (e : ev) (w : bool) : list ev * tokens * nat * bool :=
+  match dps with
+  | [] => ([], d, n, w)
+  | dp :: rest =>
+    let '(cs, d1) := dep_step v c (if w then h1 else h0) tk0 b d dp rest in
+    let '(es, n1, w1) := emit_calls cs n k e in
+    let '(es', d2, n2, w2) := deps_steps_mid v c h0 h1 tk0 b d1 rest n1 k e (w || w1) in
+    (es ++ es', d2, n2, w2)
+  end.
+
+Definition read_page_mid (v : variant) (c : cfg) (h0 h1 : hub) (tk0 : tokens) (b : nat) (n k : nat) (e : ev) (w : bool)
+  : list ev * tokens * bool * nat * bool :=
+  let '(es, d, n1, w1) := deps_steps_mid v c h0 h1 tk0 b tk0 (c_deps c) n k e w in
+  let '(vs, _, cont) := changes (feed_of (if w1 then h1 else h0) (c_main c)) (t_main tk0) b (c_latest c) in
+  let d' := mkTok cont (t_deps d) in
+  let '(em, n2, w2) := emit_calls [mkCall (map v_id vs) d'] n1 k e in
+  (es ++ em, d', match vs with [] => false | _ => true end, n2, w1 || w2).
+
+Fixpoint inc_pages_mid (v : variant) (c : cfg) (h0 h1 : hub) (b : nat) (fuel : nat) (tk : tokens) (n k : nat) (e : ev)
+         (w : bool) : list ev :=
+  match fuel with
+  | O => []
+  | S fuel' =>
+    let '(es, tk', more, n', w') := read_page_mid v c h0 h1 tk b n k e w in
+    if more then es ++ inc_pages_mid v c h0 h1 b fuel' tk' n' k e w' else es
+  end.
+
+(** the sink fails at its [fail]-th invocation: everything from there on (a later write included) does not happen *)
+Fixpoint cut_evs (evs : list ev) (fail : option nat) (n : nat) : list ev * bool :=
+  match evs with
+  | [] => ([], true)
+  | EvCall (x :: es) t :: r =>
+    if match fail with Some i => Nat.eqb i n | None => false end then ([], false)
+    else let '(r', ok) := cut_evs r fail (S n) in (EvCall (x :: es) t :: r', ok)
+  | a :: r => let '(r', ok) := cut_evs r fail n in (a :: r', ok)
+  end.
+
+Fixpoint has_append (evs : list ev) : bool :=
+  match evs with [] => false | EvAppend _ _ :: _ => true | _ :: r => has_append r end.
 
 Record state := mkSt { s_hub : hub; s_job : option tokens }.
 Definition init_state (n : nat) : state := mkSt (mkHub (repeat [] n) 0) None.
@@ -350,6 +414,18 @@ Definition step (v : variant) (c : cfg) (s : state) (o : op) : state * list ev *
     let '(evs, ok) := run_events v c (s_hub s) (s_job s) true b fail core in
     let '(evs', ins) := insert_mid evs k (EvAppend ds vs) in
     (mkSt (if ins then append_hub (s_hub s) ds vs else s_hub s) (last_tok evs' (s_job s)), evs', ok)
+  | ORunMidInc b fail core k ds vs =>
+    match s_job s with
+    | None =>
+      let '(evs, ok) := run_events v c (s_hub s) None true b fail core in
+      let '(evs', ins) := insert_mid evs k (EvAppend ds vs) in
+      (mkSt (if ins then append_hub (s_hub s) ds vs else s_hub s) (last_tok evs' None), evs', ok)
+    | Some tk =>
+      let h1 := append_hub (s_hub s) ds vs in
+      let '(evs, ok) := cut_evs (inc_pages_mid v c (s_hub s) h1 b (fuel_of (s_hub s) c) tk 0 k (EvAppend ds vs) false)
+                                fail 0 in
+      (mkSt (if has_append evs then h1 else s_hub s) (last_tok evs (Some tk)), evs, ok)
+    end
   end.
 
 Fixpoint exec (v : variant) (c : cfg) (s : state) (ops : list op) : state * list ev :=
@@ -474,7 +550,8 @@ Definition batch_ok (c : cfg) (o : op) : Prop :=
   match o with
   | ORun _ b _ _ => (1 <= b)%nat
   | ORunMid b _ _ _ ds _ => (1 <= b)%nat /\ ds <> c_main c
-  | _ => True
+  | ORunMidInc _ _ _ _ _ _ => False    (* writes during incremental runs: modelled and checked, outside the theorems *)
+  | OAppend _ _ => True
   end.
 Definition sound (v : variant) : Prop := f_shared v = SharedSnapshot /\ f_prev v = PrevFeed /\ f_wm v = WmOwn.
 
